@@ -156,6 +156,96 @@ def parse_action(label):
 # batch trace validation
 # ---------------------------------------------------------------------------------------------
 
+SELFTESTS = []     # filled by validate_traces, copied into the evidence file by Report.finish
+
+
+def _leaves(x, path, out):
+    if isinstance(x, dict):
+        for k, v in x.items():
+            if not k.startswith('_') and k not in ('origin',):
+                _leaves(v, path + (k,), out)
+    elif isinstance(x, list):
+        if x and all(isinstance(e, list) for e in x):
+            out.append((path, 'droplast'))
+        for i, e in enumerate(x):
+            _leaves(e, path + (i,), out)
+    elif isinstance(x, bool):
+        out.append((path, 'flip'))
+    elif isinstance(x, int):
+        out.append((path, 'inc'))
+
+
+def _mutate(trace, path, kind):
+    import copy
+    t = copy.deepcopy(trace)
+    x = t
+    for k in path[:-1]:
+        x = x[k]
+    if kind == 'flip':
+        x[path[-1]] = not x[path[-1]]
+    elif kind == 'inc':
+        x[path[-1]] = x[path[-1]] + 1
+    else:
+        x[path[-1]] = x[path[-1]][:-1]
+    return t
+
+
+def selftest(module, traces, verdicts, tag, constants, rng, n=40, timeout=600):
+    """Demonstration of the binding: single recorded fields of real traces are corrupted (boolean flipped, integer + 1, last
+    element of a set-like list dropped) and the corrupted traces are judged by the same trace specification.  A mutant is
+    'rejected' when its verdict differs from the verdict of the original trace.  Purely informative: the result goes into the
+    evidence file (per field: rejected / tried) and never changes the exit code."""
+    cands = [i for i, t in enumerate(traces) if t.get('events')]
+    if not cands:
+        return None
+    muts = []
+    for _ in range(n):
+        i = rng.choice(cands)
+        leaves = []
+        _leaves(traces[i], (), leaves)
+        if not leaves:
+            continue
+        path, kind = rng.choice(leaves)
+        muts.append((i, path, kind, _mutate(traces[i], path, kind)))
+    res = {'module': module, 'mutants': 0, 'rejected': 0, 'unevaluable': 0, 'by_field': {}}
+
+    def judge(part):
+        """list of verdicts (None = the corrupted value made the specification un-evaluable) for the mutants in part"""
+        wd = workdir(tag + '_st')
+        try:
+            tf = os.path.join(wd, 'traces.json')
+            with open(tf, 'w') as f:
+                json.dump([m[3] for m in part], f)
+            cfg = 'SPECIFICATION Spec\nPOSTCONDITION Post\nCHECK_DEADLOCK FALSE\n' + constants
+            try:
+                r, _ = run(module, cfg, tag + '_stv', workers=1, env={'TRACE_FILE': tf}, timeout=timeout, coverage=False)
+                v = r.printed[-1] if r.printed else None
+            except TLCError:
+                v = None
+        finally:
+            shutil.rmtree(wd, ignore_errors=True)
+        if v is not None and len(v) == len(part):
+            return v
+        if len(part) == 1:
+            return [None]
+        h = len(part) // 2
+        return judge(part[:h]) + judge(part[h:])
+
+    for (i, path, kind, _m), v in zip(muts, judge(muts) if muts else []):
+        field = '.'.join('*' if isinstance(k, int) else k for k in path) + ':' + kind
+        d = res['by_field'].setdefault(field, [0, 0])
+        res['mutants'] += 1
+        d[1] += 1
+        if v is None:
+            res['unevaluable'] += 1
+            res['rejected'] += 1
+            d[0] += 1
+        elif sorted(map(tuple, v)) != sorted(map(tuple, verdicts[i])):
+            res['rejected'] += 1
+            d[0] += 1
+    return res
+
+
 def validate_traces(module, traces, tag, constants='', timeout=1800, chunk=400):
     """Validate implementation traces against spec/<module>.tla.
 
@@ -184,4 +274,12 @@ def validate_traces(module, traces, tag, constants='', timeout=1800, chunk=400):
             trans += r.generated
         finally:
             shutil.rmtree(wd, ignore_errors=True)
+    if os.environ.get('VERIF_SELFTEST', '1') != '0' and traces:
+        import random
+        try:
+            st = selftest(module, traces, verdicts, tag, constants, random.Random(len(traces)), n=int(os.environ.get('VERIF_SELFTEST_N', '30')))
+            if st:
+                SELFTESTS.append(st)
+        except Exception as ex:      # the self-test never influences a verdict
+            SELFTESTS.append({'module': module, 'error': repr(ex)})
     return verdicts, states, trans
